@@ -50,6 +50,9 @@
     - a ConnectionPool is a bundle of Arcs: its bb8 pools (and their idle server connections) live
       exactly as long as one clone exists ([alive]); dropping the last clone closes the idle
       connections ([gc]); a checked-out connection is owned by its borrower.
+    - pools are built with validate_config = false in the tie (build_unchecked, no connection is opened by
+      from_config); the first client of a pool object then validates it (client.rs:738-755 -> pool.rs:628-670):
+      one connection per server is opened and goes back idle.  The model has ONE server address per pool.
     - bb8 hands out the most recently returned idle connection (Lifo, pool.rs:493-496 with the
       default server_round_robin = false) and opens a new one when none is idle; pool_size is
       not modelled (C04): the tie keeps the number of concurrent transactions below it.
@@ -189,7 +192,8 @@ Record world := {
   next_pool : pool_id;
   clients : list (cid * client);
   servers : list server;       (* open server connections; idle ones of a pool in LIFO order *)
-  next_srv : server_id
+  next_srv : server_id;
+  validated : list pool_id     (* pool objects whose [validated] flag is set (shared by all clones) *)
 }.
 
 Fixpoint cl_lookup (c : cid) (l : list (cid * client)) : option client :=
@@ -214,7 +218,7 @@ Definition is_held (x : server) : bool := match sholder x with Some _ => true | 
 Definition gc (w : world) : world :=
   {| st := st w; objs := objs w; next_pool := next_pool w; clients := clients w;
      servers := filter (fun x => alive (st w) (clients w) (spool x) || is_held x) (servers w);
-     next_srv := next_srv w |}.
+     next_srv := next_srv w; validated := validated w |}.
 
 Definition idle_of (p : pool_id) (x : server) : bool :=
   (spool x =? p) && negb (is_held x).
@@ -261,14 +265,15 @@ Definition actor (o : op) : option cid :=
   end.
 
 Definition with_clients (w : world) (cl : list (cid * client)) : world :=
-  {| st := st w; objs := objs w; next_pool := next_pool w; clients := cl; servers := servers w; next_srv := next_srv w |}.
+  {| st := st w; objs := objs w; next_pool := next_pool w; clients := cl; servers := servers w; next_srv := next_srv w;
+     validated := validated w |}.
 
 Definition step0 (w : world) (o : op) : world * obs :=
   match o with
   | OReload fo =>
       let '(s', r, n', new) := reload (st w) fo (next_pool w) in
       ({| st := s'; objs := new ++ objs w; next_pool := n'; clients := clients w; servers := servers w;
-          next_srv := next_srv w |}, ObReload r)
+          next_srv := next_srv w; validated := validated w |}, ObReload r)
   | OConnect c d u =>
       match cl_lookup c (clients w) with
       | Some _ => (w, ObNop)
@@ -276,8 +281,14 @@ Definition step0 (w : world) (o : op) : world * obs :=
           match plookup (d, u) (pools (st w)) with
           | None => (w, ObNoPool)                                                      (* client.rs:575-592 *)
           | Some (_, p) =>
-              (with_clients w (cl_set c {| cdb := d; cuser := u; cclone := p; cheld := None |} (clients w)),
-               ObConnected p)                                                          (* client.rs:893-898 *)
+              let cl := cl_set c {| cdb := d; cuser := u; cclone := p; cheld := None |} (clients w) in   (* client.rs:893-898 *)
+              if existsb (Nat.eqb p) (validated w) then (with_clients w cl, ObConnected p)
+              else
+                (* client.rs:740-741: the first client of a pool object that was built without validate_config
+                   runs pool.validate(): one server connection is opened, its parameters are read, it goes back idle *)
+                ({| st := st w; objs := objs w; next_pool := next_pool w; clients := cl;
+                    servers := {| sid := next_srv w; spool := p; sholder := None |} :: servers w;
+                    next_srv := S (next_srv w); validated := p :: validated w |}, ObConnected p)
           end
       end
   | OBegin c =>
@@ -294,13 +305,13 @@ Definition step0 (w : world) (o : op) : world * obs :=
                   | Some (s, l') =>
                       ({| st := st w; objs := objs w; next_pool := next_pool w;
                           clients := cl_set c {| cdb := cdb x; cuser := cuser x; cclone := p; cheld := Some s |} (clients w);
-                          servers := l'; next_srv := next_srv w |}, ObBegun p s false)
+                          servers := l'; next_srv := next_srv w; validated := validated w |}, ObBegun p s false)
                   | None =>
                       let s := next_srv w in
                       ({| st := st w; objs := objs w; next_pool := next_pool w;
                           clients := cl_set c {| cdb := cdb x; cuser := cuser x; cclone := p; cheld := Some s |} (clients w);
                           servers := {| sid := s; spool := p; sholder := Some c |} :: servers w;
-                          next_srv := S s |}, ObBegun p s true)
+                          next_srv := S s; validated := validated w |}, ObBegun p s true)
                   end
               end
           end
@@ -314,7 +325,7 @@ Definition step0 (w : world) (o : op) : world * obs :=
           | Some _ =>
               ({| st := st w; objs := objs w; next_pool := next_pool w;
                   clients := cl_set c {| cdb := cdb x; cuser := cuser x; cclone := cclone x; cheld := None |} (clients w);
-                  servers := release c (servers w); next_srv := next_srv w |}, ObEnded)
+                  servers := release c (servers w); next_srv := next_srv w; validated := validated w |}, ObEnded)
           end
       end
   | ODisconnect c =>
@@ -322,7 +333,7 @@ Definition step0 (w : world) (o : op) : world * obs :=
       | None => (w, ObNop)
       | Some _ =>
           ({| st := st w; objs := objs w; next_pool := next_pool w; clients := cl_remove c (clients w);
-              servers := release c (servers w); next_srv := next_srv w |}, ObGone)
+              servers := release c (servers w); next_srv := next_srv w; validated := validated w |}, ObGone)
       end
   end.
 
@@ -369,7 +380,8 @@ End WithHash.
 
 Definition empty_cfg : cfg := {| cgen := 0; cpools := [] |}.
 Definition empty_world : world :=
-  {| st := {| config := empty_cfg; pools := [] |}; objs := []; next_pool := 0; clients := []; servers := []; next_srv := 0 |}.
+  {| st := {| config := empty_cfg; pools := [] |}; objs := []; next_pool := 0; clients := []; servers := []; next_srv := 0;
+     validated := [] |}.
 
 (** -------------------------------------------------------------- printable views for the tie *)
 
